@@ -217,8 +217,13 @@ func c09NewStore(kind string, cap, maxkb int, dir string) (storage.Store, *c09Ev
 	return st, ev, err
 }
 
+const c09Hdr = "Subject: t\r\n\r\n"
+
 func c09Delivery(box string, tok int, size int, date time.Time) *message.Delivery {
 	body := bytes.Repeat([]byte{'x'}, size)
+	if size >= len(c09Hdr)+1 { // a parsable message (the manager's view parses it); the size stays what the caller asked for
+		copy(body, c09Hdr)
+	}
 	return &message.Delivery{Meta: event.MessageMetadata{Mailbox: box, From: &mail.Address{Address: "s@src.net"},
 		To: []*mail.Address{{Address: "r@dest.org"}}, Date: date, Subject: "t" + strconv.Itoa(tok)},
 		Reader: io.NopCloser(bytes.NewReader(body))}
@@ -1098,6 +1103,7 @@ func c09ChildStress(sp c09Spec) {
 		c09Fail("store-construction", err.Error(), ident)
 		return
 	}
+	viewer := &message.StoreManager{Store: st}
 	type boxState struct {
 		mu     sync.Mutex
 		ids    map[string]bool
@@ -1207,6 +1213,19 @@ func c09ChildStress(sp c09Spec) {
 				_ = m.Seen()
 				if id != "latest" && m.ID() != id {
 					c09Fail("get-returns-asked-message", fmt.Sprintf("GetMessage(%q,%q) returned id %q", box, id, m.ID()), ident)
+				}
+				// read it the way the interfaces do: the raw source (POP3, REST source) and the parsed view of the message manager (REST / web UI)
+				if rd, err := m.Source(); err == nil {
+					b, rerr := io.ReadAll(rd)
+					rd.Close()
+					if rerr != nil || int64(len(b)) != m.Size() || strings.Trim(strings.TrimPrefix(string(b), c09Hdr), "x") != "" {
+						c09Fail("read-back-intact", fmt.Sprintf("source of %q/%s: %d bytes read (err %v), Size() = %d, foreign bytes: %v", box, m.ID(), len(b), rerr, m.Size(), strings.Trim(strings.TrimPrefix(string(b), c09Hdr), "x") != ""), ident)
+					}
+				}
+				if r.Intn(2) == 0 {
+					if v, err := viewer.GetMessage(box, m.ID()); err == nil && v != nil && v.ID != m.ID() {
+						c09Fail("get-returns-asked-message", fmt.Sprintf("manager GetMessage(%q,%q) returned id %q", box, m.ID(), v.ID), ident)
+					}
 				}
 			}
 		default:
